@@ -275,7 +275,7 @@ class SoCBusHandler(LiteXModule):
         size_pow2 = 2**log2_int(size, False)
         for _, search_region in search_regions.items():
             origin = search_region.origin
-            while (origin + size) < (search_region.origin + search_region.size_pow2):
+            while (origin + size) < (search_region.origin + search_region.size):
                 # Align Origin on Size.
                 if (origin%size_pow2):
                     origin += (size_pow2 - origin%size_pow2)
